@@ -223,6 +223,11 @@ def run(ctx: Ctx) -> None:
         (td / "plug" / "sub" / "__init__.py").write_text("")
         make_module(td / "plug" / "sub" / "z.py", "PLG", 102, "union", enabled=False)
         make_module(td / "solo.py", "SOL", 100, "two")
+        # an opt-in check whose module also holds OTHER checks' error classes under other names (shared bases, re-exports):
+        # the module is judged by its own ErrorInfo, whatever else it imports
+        make_module(td / "plug" / "w.py", "PLG", 103, "two", enabled=False)
+        with open(td / "plug" / "w.py", "a") as fh:
+            fh.write("\nfrom plug.x import ErrorInfo as AaaBaseError\nfrom plug.y import ErrorInfo as ZzzOtherError\nfrom refurb.error import Error as BaseError\n")
         # namespace packages: plain directories of check modules, no __init__.py (their __file__ is None)
         (td / "nsa").mkdir()
         make_module(td / "nsa" / "m.py", "NSA", 100, "two")
@@ -231,14 +236,14 @@ def run(ctx: Ctx) -> None:
         (td / "t.py").write_text("a = 1\nb = a\nc = 'x'\n")
         log = td / "calls.log"
         env = {"C16_LOG": str(log), "PYTHONPATH": f"{td}:{L.ENV['PYTHONPATH']}"}
-        names = {"plug": ["plug.sub.z", "plug.x", "plug.y"], "plug.x": None, "plug.sub": ["plug.sub.z"], "solo": None, "refurb.checks": "builtin", "nsa": ["nsa.m"], "nsb": ["nsb.m"]}
+        names = {"plug": ["plug.sub.z", "plug.w", "plug.x", "plug.y"], "plug.x": None, "plug.sub": ["plug.sub.z"], "solo": None, "refurb.checks": "builtin", "nsa": ["nsa.m"], "nsb": ["nsb.m"]}
         tl = list(names)
         target_lists = [[]] + [[a] for a in tl] + [[a, b2] for a in tl for b2 in tl]
         if ctx.tier == "thorough":
             target_lists += [[a, b2, c] for a in tl for b2 in tl for c in tl]
         else:
             target_lists += [[ctx.rng.choice(tl) for _ in range(3)] for _ in range(10)]
-        expected_per_module = {"plug.x": ("PLG100", ["IntExpr"]), "plug.y": ("PLG101", ["NameExpr"]), "plug.sub.z": ("PLG102", ["IntExpr", "StrExpr"]), "solo": ("SOL100", ["IntExpr"]), "nsa.m": ("NSA100", ["IntExpr"]), "nsb.m": ("NSB100", ["IntExpr"])}
+        expected_per_module = {"plug.x": ("PLG100", ["IntExpr"]), "plug.y": ("PLG101", ["NameExpr"]), "plug.sub.z": ("PLG102", ["IntExpr", "StrExpr"]), "plug.w": ("PLG103", ["IntExpr"]), "solo": ("SOL100", ["IntExpr"]), "nsa.m": ("NSA100", ["IntExpr"]), "nsb.m": ("NSB100", ["IntExpr"])}
         node_counts = {"IntExpr": 1, "NameExpr": 4, "StrExpr": 1}
         model_rows = []
         from concurrent.futures import ThreadPoolExecutor
@@ -331,7 +336,8 @@ def selections(ctx: Ctx, td: Path, env, log: Path) -> None:
     base = ["t.py", "--quiet", "--load", "plug", "--load", "solo"]
     cases = [([], {"PLG100", "PLG101", "SOL100"}), (["--disable", "PLG100"], {"PLG101", "SOL100"}), (["--ignore", "PLG101"], {"PLG100", "SOL100"}),
              (["--enable", "PLG102"], {"PLG100", "PLG101", "PLG102", "SOL100"}), (["--disable-all", "--enable", "SOL100"], {"SOL100"}),
-             (["--disable", "#plugcat"], set()), (["--disable", "#plugcat", "--enable", "PLG101"], {"PLG101"}), (["--enable-all"], {"PLG100", "PLG101", "PLG102", "SOL100"}),
+             (["--enable", "PLG103"], {"PLG100", "PLG101", "PLG103", "SOL100"}), (["--disable", "PLG100", "--disable", "PLG101"], {"SOL100"}),
+             (["--disable", "#plugcat"], set()), (["--disable", "#plugcat", "--enable", "PLG101"], {"PLG101"}), (["--enable-all"], {"PLG100", "PLG101", "PLG102", "PLG103", "SOL100"}),
              (["--disable-all"], set()), (["--ignore", "#plugcat"], set()), (["--verbose"], {"PLG100", "PLG101", "SOL100"})]
     for extra, want in cases:
         if log.exists():
